@@ -352,6 +352,20 @@ class PrettyPrinter:
     def is_expression(self, option):
         return "description" in option and (option["description"] == "expression")
 
+    def get_options_list(self, attr_props):
+        """
+        Return all the alternatives of a oneOf / anyOf / allOf property,
+        including any nested within one another
+        """
+        options_list = []
+        for combiner in ("oneOf", "anyOf", "allOf"):
+            for option in attr_props.get(combiner, []):
+                if any(i in option for i in ("oneOf", "anyOf", "allOf")):
+                    options_list += self.get_options_list(option)
+                else:
+                    options_list.append(option)
+        return options_list
+
     def check_options_list(self, options_list, value):
         for option in options_list:
             if "enum" in option and value.lower() in option["enum"]:
@@ -405,12 +419,9 @@ class PrettyPrinter:
 
         # expressions can be one of a string or an expression in brackets
         if any(
-            i in ["oneOf", "anyOf"] for i in attr_props
+            i in ["oneOf", "anyOf", "allOf"] for i in attr_props
         ):  # and check that type string is in list
-            if "oneOf" in attr_props:
-                options_list = attr_props["oneOf"]
-            else:
-                options_list = attr_props["anyOf"]
+            options_list = self.get_options_list(attr_props)
             if self.quoter.is_string(value):
                 if self.quoter.in_parenthesis(value):
                     pass
